@@ -526,17 +526,23 @@ class Sim:
         # MPI leaves the order of reported indices unspecified
         return chosen
 
-    def _collective(self, rank, name, obj, root, op):
+    def _collective(self, rank, name, obj, root, op, raw=False):
+        """raw: *obj* already is the pickle made by the rank's own interpreter
+        (process actors); the result is handed back as bytes (for a gather at
+        the root: as ("list", [bytes])) and *op* must have fold_raw."""
         self._check_rank(rank)
         seq = self.coll_seq[rank]
         self.coll_seq[rank] += 1
-        blob = pickle.dumps(obj, protocol=pickle.HIGHEST_PROTOCOL)
+        blob = obj if raw else pickle.dumps(obj, protocol=pickle.HIGHEST_PROTOCOL)
+        self.raw_collectives = raw
         self.coll_pending.setdefault(seq, {})[rank] = (name, blob, root, op)
         self.spin[rank] = 0
         self._ev("coll-enter", rank, seq, name, root)
         self._park(rank, ("coll", seq, name),
                    lambda: (seq, rank) in self.coll_results)
         res = self.coll_results.pop((seq, rank))
+        if raw:
+            return res
         return None if res is None else pickle.loads(res)
 
     # }}}
@@ -562,6 +568,10 @@ class Sim:
             if name == "bcast":
                 for r in range(self.n):
                     res[r] = entries[root][1]
+            elif name == "gather" and getattr(self, "raw_collectives", False):
+                for r in range(self.n):
+                    res[r] = ("list", [entries[q][1] for q in range(self.n)]) \
+                        if r == root else None
             elif name == "gather":
                 objs = [pickle.loads(entries[q][1]) for q in range(self.n)]
                 for r in range(self.n):
@@ -573,6 +583,31 @@ class Sim:
             elif name == "barrier":
                 for r in range(self.n):
                     res[r] = None
+            elif name == "allreduce" and getattr(self, "raw_collectives", False):
+                # the op function lives in the ranks' interpreters: a seeded
+                # rank folds two pickles at a time
+                op0 = entries[0][3]
+                order = list(range(self.n))
+                if op0.commute and self.cfg["reduce_shuffle"] and self.n > 1:
+                    pool = order[:]
+                    order = []
+                    while pool:
+                        order.append(pool.pop(
+                            self.ch.pick("reduce-order", pool)
+                            if len(pool) > 1 else 0))
+                    if order != sorted(order):
+                        self.stats["reduce_shuffled"] += 1
+                seqn = [entries[q][1] for q in order]
+                while len(seqn) > 1:
+                    j = (self.ch.pick("reduce-bracket", list(range(len(seqn) - 1)))
+                         if len(seqn) > 2 and op0.commute
+                         and self.cfg["reduce_shuffle"] else 0)
+                    f = self.ch.pick("fold-rank", list(range(self.n))) \
+                        if self.n > 1 else 0
+                    seqn[j:j + 2] = [entries[f][3].fold_raw(seqn[j], seqn[j + 1])]
+                for r in range(self.n):
+                    res[r] = seqn[0]
+                self._ev("allreduce-order", tuple(order))
             elif name == "allreduce":
                 op = entries[0][3]
                 items = [pickle.loads(entries[q][1]) for q in range(self.n)]
